@@ -1967,6 +1967,22 @@ class Evaluator:
                 pass                # cosmetic attributes of a function object
             else:
                 raise Undecided(f'attribute store on {base!r}')
+        elif isinstance(target, ast.Subscript) and isinstance(target.slice, ast.Slice):
+            # xs[a:b] = ys on a list of known items with concrete bounds and known new items
+            base = self.eval(target.value, st, ctx)
+            new_items = self.items(st, v) if not isinstance(v, Cond) else None
+            if not isinstance(base, Lst) or new_items is None or target.slice.step is not None:
+                raise Undecided('slice store')
+            bounds = []
+            for part in (target.slice.lower, target.slice.upper):
+                if part is None:
+                    bounds.append(None)
+                    continue
+                pv = self.eval(part, st, ctx)
+                if not self.is_concrete_number(pv):
+                    raise Undecided('slice store with a symbolic bound')
+                bounds.append(int(self.scalar(pv).const_value()))
+            self.hp(st, base.oid)['$items'][slice(*bounds)] = list(new_items)
         elif isinstance(target, ast.Subscript):
             base = self.eval(target.value, st, ctx)
             idx = self.eval(target.slice, st, ctx)
